@@ -75,10 +75,16 @@ def _retargeted(value, new_methods: dict[ir.Method, ir.Method]):
     return value
 
 
+def _constant_value(node: Statement):
+    """the Python value a constant statement holds: kirin wraps plain values in a PyAttr
+    and keeps values that are `ir.Data` themselves (an IList) as they are."""
+    if not isinstance(node, Constant):
+        return None
+    return node.value.data if isinstance(node.value, ir.PyAttr) else node.value
+
+
 def _constant_methods(node: Statement) -> list[ir.Method]:
-    if isinstance(node, Constant) and isinstance(node.value, ir.PyAttr):
-        return _methods_in(node.value.data)
-    return []
+    return _methods_in(_constant_value(node))
 
 
 def _reachable_methods(mt: ir.Method) -> list[ir.Method]:
@@ -139,7 +145,9 @@ class _RetargetMethods(RewriteRule):
         elif closures := _constant_methods(node):
             if not any(closure in self.new_methods for closure in closures):
                 return RewriteResult()
-            node.replace_by(Constant(_retargeted(node.value.data, self.new_methods)))
+            node.replace_by(
+                Constant(_retargeted(_constant_value(node), self.new_methods))
+            )
             return RewriteResult(has_done_something=True)
         return RewriteResult()
 
